@@ -104,7 +104,42 @@ func realValue(name string, arg *T) (*T, bool) {
 	return nil, false
 }
 
+// appMismatches compares every stand-in application in the model with the real function.
+func appMismatches(apps []*T, kvs []struct {
+	Key string
+	Val ModelValue
+}, off int, pinned map[string]bool) (pins []*T, fixes []*T, bad int) {
+	for i, a := range apps {
+		j := off + 2*i
+		if j+1 >= len(kvs) {
+			break
+		}
+		argT, ok1 := mvToTerm(kvs[j].Val, a.Args[0].Sort)
+		appT, ok2 := mvToTerm(kvs[j+1].Val, a.Sort)
+		if !ok1 || !ok2 {
+			continue
+		}
+		real, ok := realValue(a.Name, argT)
+		if !ok || constEq(real, appT) {
+			continue
+		}
+		bad++
+		key := a.Name + ":" + argT.String()
+		if !pinned[key] {
+			pinned[key] = true
+			pin := UF(a.Name, a.Sort, argT)
+			pin.FixLen = a.FixLen
+			pins = append(pins, Eq(pin, real))
+		}
+		fixes = append(fixes, Eq(a.Args[0], argT))
+	}
+	return
+}
+
 // solveConcrete returns a model that agrees with the real functions, or unsat/unknown.
+// Phase A keeps the input variables at the first model's values and only repairs the stand-ins level by level
+// (nested hashes need one round per level; every round is nearly ground, hence fast). If that fails, phase B
+// re-solves with the accumulated pins and free variables.
 func (e *Engine) solveConcrete(extra []*T, timeoutMs int) (QueryResult, []string, int) {
 	var apps []*T
 	seen := map[*T]bool{}
@@ -112,79 +147,90 @@ func (e *Engine) solveConcrete(extra []*T, timeoutMs int) (QueryResult, []string
 	collectUFApps(e.pc, seen, &apps)
 	collectUFApps(extra, seen, &apps)
 	base := e.world.modelTerms()
-	var pins []*T
+	values := append([]*T{}, base...)
+	for _, a := range apps {
+		values = append(values, a.Args[0], a)
+	}
+	r, names, _ := e.solve(extra, true, timeoutMs, values)
+	if r.Res != "sat" || len(apps) == 0 {
+		return r, names, 0
+	}
 	pinned := map[string]bool{}
+	var pins []*T
 	rounds := 0
-	for {
-		values := append([]*T{}, base...)
-		for _, a := range apps {
-			values = append(values, a.Args[0], a)
+	kvs := parseModel(r.Model)
+	newPins, _, bad := appMismatches(apps, kvs, len(names)+len(base), pinned)
+	if bad == 0 {
+		return r, names, 0
+	}
+	pins = append(pins, newPins...)
+	// phase A: fix the scalar input variables
+	var fixVars []*T
+	d := &decls{vars: map[string]Sort{}, ufs: map[string]string{}, seen: map[*T]bool{}}
+	for _, t := range e.axioms {
+		d.walk(t)
+	}
+	for _, t := range e.pc {
+		d.walk(t)
+	}
+	for _, t := range extra {
+		d.walk(t)
+	}
+	for i, n := range names {
+		if i >= len(kvs) {
+			break
 		}
-		r, names, _ := e.solve(append(append([]*T{}, extra...), pins...), true, timeoutMs, values)
-		if r.Res != "sat" || len(apps) == 0 {
-			return r, names, rounds
+		srt := d.vars[n]
+		if srt.K == SArr {
+			continue
 		}
-		kvs := parseModel(r.Model)
-		off := len(names) + len(base)
-		var newPins, fixes []*T
-		for i, a := range apps {
-			j := off + 2*i
-			if j+1 >= len(kvs) {
-				break
-			}
-			argT, ok1 := mvToTerm(kvs[j].Val, a.Args[0].Sort)
-			appT, ok2 := mvToTerm(kvs[j+1].Val, a.Sort)
-			if !ok1 || !ok2 {
-				continue
-			}
-			real, ok := realValue(a.Name, argT)
-			if !ok {
-				continue
-			}
-			if !constEq(real, appT) {
-				key := a.Name + ":" + argT.String()
-				if !pinned[key] {
-					pinned[key] = true
-					pin := UF(a.Name, a.Sort, argT)
-					pin.FixLen = a.FixLen
-					newPins = append(newPins, Eq(pin, real))
-				}
-				fixes = append(fixes, Eq(a.Args[0], argT))
-			}
-		}
-		if len(newPins) == 0 {
-			return r, names, rounds // consistent with the real functions
-		}
-		rounds++
-		if rounds > 8 {
-			r.Res = "unknown"
-			return r, names, rounds
-		}
-		pins = append(pins, newPins...)
-		// first try to keep the stand-in arguments at the model's values (usually enough: only keys change)
-		r2, names2, _ := e.solve(append(append(append([]*T{}, extra...), pins...), fixes...), true, timeoutMs, values)
-		if r2.Res == "sat" {
-			kv2 := parseModel(r2.Model)
-			consistent := true
-			for i, a := range apps {
-				j := len(names2) + len(base) + 2*i
-				if j+1 >= len(kv2) {
-					break
-				}
-				argT, ok1 := mvToTerm(kv2[j].Val, a.Args[0].Sort)
-				appT, ok2 := mvToTerm(kv2[j+1].Val, a.Sort)
-				if !ok1 || !ok2 {
-					continue
-				}
-				if real, ok := realValue(a.Name, argT); ok && !constEq(real, appT) {
-					consistent = false
-				}
-			}
-			if consistent {
-				return r2, names2, rounds
-			}
+		if c, ok := mvToTerm(kvs[i].Val, srt); ok {
+			fixVars = append(fixVars, Eq(Var(n, srt), c))
 		}
 	}
+	for rounds < 12 {
+		rounds++
+		as := append(append(append([]*T{}, extra...), pins...), fixVars...)
+		r2, names2, _ := e.solve(as, true, timeoutMs, values)
+		if r2.Res != "sat" {
+			break
+		}
+		kv2 := parseModel(r2.Model)
+		np, _, bad2 := appMismatches(apps, kv2, len(names2)+len(base), pinned)
+		if bad2 == 0 {
+			return r2, names2, rounds
+		}
+		if len(np) == 0 {
+			break
+		}
+		pins = append(pins, np...)
+	}
+	// phase B: free variables, accumulated pins
+	for rounds < 24 {
+		rounds++
+		r3, names3, _ := e.solve(append(append([]*T{}, extra...), pins...), true, timeoutMs, values)
+		if r3.Res != "sat" {
+			return r3, names3, rounds
+		}
+		kv3 := parseModel(r3.Model)
+		np, fixes, bad3 := appMismatches(apps, kv3, len(names3)+len(base), pinned)
+		if bad3 == 0 {
+			return r3, names3, rounds
+		}
+		pins = append(pins, np...)
+		r4, names4, _ := e.solve(append(append(append([]*T{}, extra...), pins...), fixes...), true, timeoutMs, values)
+		if r4.Res == "sat" {
+			kv4 := parseModel(r4.Model)
+			if _, _, bad4 := appMismatches(apps, kv4, len(names4)+len(base), pinned); bad4 == 0 {
+				return r4, names4, rounds
+			}
+		}
+		if len(np) == 0 {
+			break
+		}
+	}
+	r.Res = "unknown"
+	return r, names, rounds
 }
 
 var _ = fmt.Sprintf
